@@ -17,7 +17,9 @@ import (
 	"verif/harness/h"
 
 	"github.com/itchio/arkive/zip"
+	"github.com/itchio/lake/pools/fspool"
 	"github.com/itchio/wharf/archiver"
+	"github.com/itchio/wharf/archiver/containerarchiver"
 	"pgregory.net/rapid"
 )
 
@@ -38,6 +40,9 @@ type Spec struct {
 	Crash    bool   `json:"crash,omitempty"`    // enumerate crash points in a child process
 	Workers2 int    `json:"workers2,omitempty"` // worker count of the restarted extraction
 	Procs    int    `json:"procs,omitempty"`    // >0: GOMAXPROCS during the case
+	// ViaContainer: the zip is written by containerarchiver.CompressZip from the walked container and
+	// a file-system pool (deflate-compressed entries) instead of archiver.CompressZip (stored entries)
+	ViaContainer bool `json:"via_container,omitempty"`
 }
 
 func specTree(s Spec) h.Tree {
@@ -235,7 +240,19 @@ func check(s Spec) h.Result {
 		return h.Result{Classes: cl, NonTrivial: nd > 0 && nf > 1}
 	}
 	zb := new(bytes.Buffer)
-	if _, err := archiver.CompressZip(zb, src, h.Quiet()); err != nil {
+	if s.ViaContainer {
+		cl = append(cl, "zip:containerarchiver-deflate")
+		c, err := h.Walk(src)
+		if err != nil {
+			return h.Result{Skip: "cannot walk the source tree: " + err.Error()}
+		}
+		pool := fspool.New(c, src)
+		_, err = containerarchiver.CompressZip(zb, c, pool, h.Quiet())
+		pool.Close()
+		if err != nil {
+			return h.Result{Fail: fmt.Sprintf("containerarchiver.CompressZip: %v", err), Classes: cl}
+		}
+	} else if _, err := archiver.CompressZip(zb, src, h.Quiet()); err != nil {
 		return h.Result{Fail: fmt.Sprintf("CompressZip: %v", err), Classes: cl}
 	}
 	zipb := zb.Bytes()
@@ -356,6 +373,9 @@ var prop = h.Prop[Spec]{
 			s.Tree = genTree(t)
 		}
 		s.Workers = genWorkers(t)
+		if s.Format == "zip" {
+			s.ViaContainer = rapid.IntRange(0, 2).Draw(t, "via-container") == 0
+		}
 		if s.Format == "zip" && s.Workers >= 2 && rapid.Bool().Draw(t, "gate") {
 			s.Gate = &Gate{Entry: rapid.IntRange(0, 50).Draw(t, "gate-entry"), Need: rapid.IntRange(1, 8).Draw(t, "gate-need")}
 		}
@@ -401,6 +421,7 @@ var propCrash = h.Prop[Spec]{
 			s.Tree = genTree(t)
 		}
 		s.Workers = rapid.SampledFrom([]int{1, 2, 2, 3, 4, 8}).Draw(t, "workers")
+		s.ViaContainer = rapid.IntRange(0, 3).Draw(t, "via-container") == 0
 		s.Workers2 = rapid.SampledFrom([]int{0, 1, 4}).Draw(t, "workers-restart")
 		if s.Workers >= 2 && rapid.IntRange(0, 3).Draw(t, "gate") > 0 {
 			s.Gate = &Gate{Entry: rapid.IntRange(0, 6).Draw(t, "gate-entry"), Need: rapid.IntRange(1, 5).Draw(t, "gate-need")}
